@@ -20,6 +20,7 @@ mod psbtobs;
 mod sat;
 mod tapobs;
 mod transobs;
+mod trsat;
 mod types;
 mod uni;
 mod world;
@@ -70,6 +71,7 @@ fn main() {
             "crash" => crashobs::run_case(&u, &case),
             "cksum" => cksumobs::run_case(&u, &case),
             "poltext" => poltext::run_case(&u, &case),
+            "trsat" => trsat::run_case(&u, &case),
             "translate" => transobs::run_case(&u, &case),
             _ => {
                 eprintln!("unknown command {}", cmd);
